@@ -10,7 +10,7 @@ let id = "C19"
 let rule = "scenarios sync (NewDbSyncer + Sync: start banner, checkpoint load, PSYNC with AUTH, full sync through the worker pool, incremental sync, a dropped source \
 connection and its re-established PSYNC), restore, rump, dump, restart (a source refusing connections: the syncer restarts itself until its failure budget is used up and aborts) and cluster (a cluster source with no reachable master: topology re-discovery gives up after its retry budget and the run aborts; output captured through a side file), each with distinct random sentinel passwords for source and target (printable, with spaces, quotes, \
 percent signs, JSON-special characters; also empty) x log level error/info/debug; all bytes written through pkg/libs/log and the documents GetSafeOptions / GetExtraInfo \
-(JSON and %v) are searched for the sentinels; the run must really have authenticated with them (AUTH seen by the fakes); non-trivial = both passwords non-empty; distinct by wire line"
+(JSON and %v) are searched for the sentinels; the run must really have authenticated with them (AUTH seen by the fakes); a tenth of the cases each with only the source or only the target password set; non-trivial = at least one password non-empty; distinct by wire line"
 
 let bs = bytes_of_string
 let raw s = SRaw ((if String.length s < 64 then L6 else L14), bs s)
@@ -26,7 +26,9 @@ let gen_case st scenario =
   let units = [ USelect (L6, n_of_int 0); UKey (raw "k1", VStr (N0, raw "v1")); UKey (raw "k2", VHash (L6, [ (raw "f", raw "v") ]));
                 USelect (L6, n_of_int 3); UKey (raw ("k" ^ string_of_int (rnd_int st 100)), VStr (N0, raw "x")) ] in
   let cmds = [ [ "select"; "0" ]; [ "set"; "a"; "1" ]; [ "set"; "b"; "2" ]; [ "select"; "3" ]; [ "lpush"; "l"; "x"; "y" ]; [ "set"; "c"; "3" ]; [ "ping" ]; [ "set"; "d"; "4" ] ] in
-  { scenario; srcpw = (if rnd_int st 12 = 0 then "" else sentinel st "SRC"); tgtpw = (if rnd_int st 12 = 0 then "" else sentinel st "TGT");
+  (* one password only: a tenth of the cases each way (an unauthenticated source with a protected target is the normal restore setup) *)
+  let only = rnd_int st 10 in
+  { scenario; srcpw = (if only = 0 then "" else sentinel st "SRC"); tgtpw = (if only = 1 then "" else sentinel st "TGT");
     level = rnd_pick st [ "debug"; "debug"; "info"; "error" ]; units; cmds }
 
 let gen st tier =
@@ -35,7 +37,9 @@ let gen st tier =
   @ List.init (if tier = "thorough" then 4 else 1) (fun _ -> { (gen_case st "cluster") with level = "error" })
   @ List.init (if tier = "thorough" then 4 else 1) (fun _ -> { (gen_case st "restart") with level = "error" })
 
-let corpus = [ { (gen_case (Random.State.make [| 19 |]) "sync") with srcpw = "SRC-sentinel-0001"; tgtpw = "TGT-sentinel-0002"; level = "info" } ]
+let corpus = [ { (gen_case (Random.State.make [| 19 |]) "sync") with srcpw = "SRC-sentinel-0001"; tgtpw = "TGT-sentinel-0002"; level = "info" };
+               { (gen_case (Random.State.make [| 20 |]) "restore") with srcpw = ""; tgtpw = "TGT-sentinel-0003"; level = "info" };
+               { (gen_case (Random.State.make [| 21 |]) "sync") with srcpw = "SRC-sentinel-0004"; tgtpw = ""; level = "info" } ]
 
 let dump_payload = string_of_bytes (encode_dump Valgen.fmt_g17 (LString (bs "v")))
 let to_line c =
@@ -43,7 +47,7 @@ let to_line c =
     (hex_of_string (if c.scenario = "rump" then dump_payload else Rdbgen.image 9 c.units))
     (C02.hexd (String.concat "" (List.map Incrgen.resp_bytes c.cmds)))
 let show c = Printf.sprintf "%s at log level %s; source password %S, target password %S" c.scenario c.level c.srcpw c.tgtpw
-let classify c = if c.srcpw = "" || c.tgtpw = "" then None else Some (c.scenario ^ ":" ^ c.level)
+let classify c = if c.srcpw = "" && c.tgtpw = "" then None else Some (c.scenario ^ ":" ^ c.level ^ (if c.srcpw = "" then ":target-only" else if c.tgtpw = "" then ":source-only" else ""))
 
 let fail kind sig_ model impl detail = Fail { kind; sig_; model; impl; detail }
 
